@@ -10,6 +10,7 @@ import (
 	"os"
 	"path/filepath"
 	"strconv"
+	"strings"
 	"sync"
 	"sync/atomic"
 	"time"
@@ -78,8 +79,33 @@ func sockDir() string {
 	return d
 }
 
-// Start binds the service to a fresh server of the given kind.
-func Start(kind string, service *core.Service) (*Server, error) {
+// Start binds the service to a fresh server of the given kind, retrying for a while when the machine
+// has run out of free ports.
+func Start(kind string, service *core.Service) (s *Server, err error) {
+	for try := 0; try < 40; try++ {
+		if s, err = start(kind, service); err == nil || !ResourceError(err) {
+			return
+		}
+		time.Sleep(250 * time.Millisecond)
+	}
+	return
+}
+
+// ResourceError reports whether err says that the machine has no free port or descriptor left.
+func ResourceError(err error) bool {
+	if err == nil {
+		return false
+	}
+	m := err.Error()
+	for _, x := range []string{"address already in use", "cannot assign requested address", "too many open files", "no buffer space available"} {
+		if strings.Contains(m, x) {
+			return true
+		}
+	}
+	return false
+}
+
+func start(kind string, service *core.Service) (*Server, error) {
 	setup()
 	_ = rpc.NewClient // make sure the rpc package (transport and handler registration) is linked in
 	n := atomic.AddInt64(&seq, 1)
